@@ -136,6 +136,11 @@ fn post_json(i: &Inst, state: &State) -> Value {
     if i.q.is_some() {
         post["q"] = json!((0..32).map(|k| sc_limbs(state, &format!("v{}", k))).collect::<Vec<_>>());
     }
+    // pages the executor created (copy-on-write): a store that went astray shows up here
+    let mut pages: Vec<u64> = state.memory().pages().keys().cloned().collect();
+    pages.sort();
+    post["pages"] = json!(pages.iter().map(|p| l64(*p)).collect::<Vec<_>>());
+    post["psize"] = json!(falcon::memory::paged::PAGE_SIZE);
     post
 }
 
